@@ -8,3 +8,6 @@ cargo build --offline 2>&1 | tail -2
 cargo build --offline --release 2>&1 | tail -2
 # ThreadSanitizer flavour (C02 quick leg); a failure here only drops that leg
 RUSTFLAGS="--cfg redis_rust_verif -Zsanitizer=thread" CARGO_TARGET_DIR=../target/tsan cargo +nightly build --release --no-default-features -Zbuild-std --target x86_64-unknown-linux-gnu 2>&1 | tail -1 || true
+# the repository's real server binaries for the end-to-end legs (also rebuilt by ./check on every run)
+cd "$(dirname "$0")/.." 2>/dev/null || true
+python3 -c "import sys; sys.path.insert(0, '/verif/e2e'); import lib; lib.build_bins()" 2>&1 | tail -2 || true  # repobin
